@@ -89,6 +89,43 @@ REGISTRY_REQUESTS = [
 
 
 _NET2 = None
+_CRASH = {"calls": 0, "fail_at": None, "exc": RuntimeError}
+_CRASHABLE = None
+
+
+class C14Interrupt(BaseException):
+    """KeyboardInterrupt-like: not an Exception"""
+
+
+def _crash_point():
+    """called at the top of the bodies of the harness's @onnx_function targets: raises at the fail_at-th invocation
+    within one failing history conversion (never during a request)"""
+    _CRASH["calls"] += 1
+    if _CRASH["fail_at"] is not None and _CRASH["calls"] == _CRASH["fail_at"]:
+        raise _CRASH["exc"]("c14 injected crash at invocation %d" % _CRASH["calls"])
+
+
+def _crashable_model():
+    """model(x) = c14_scaled_tanh(x) + 1 with c14_scaled_tanh an @onnx_function (module attribute of this module)"""
+    global _CRASHABLE
+    if _CRASHABLE is None:
+        import jax.numpy as jnp
+        from jax2onnx import onnx_function
+
+        def c14_scaled_tanh(x):
+            _crash_point()
+            return jnp.tanh(x) * 3.0
+
+        c14_scaled_tanh.__module__ = __name__
+        c14_scaled_tanh.__qualname__ = "c14_scaled_tanh"
+        globals()["c14_scaled_tanh"] = c14_scaled_tanh
+        globals()["c14_scaled_tanh"] = onnx_function(c14_scaled_tanh)
+
+        def model(x):
+            return globals()["c14_scaled_tanh"](x) + 1.0
+
+        _CRASHABLE = model
+    return _CRASHABLE
 
 
 def _two_call_params_net():
@@ -105,6 +142,7 @@ def _two_call_params_net():
                 self.d = nnx.Dropout(0.5, rngs=rngs)
 
             def __call__(self, x, deterministic=True, train_flag=False, other=True):
+                _crash_point()
                 return self.d(self.l(x), deterministic=deterministic)
 
         C14Blk.__module__ = __name__
@@ -181,6 +219,7 @@ def own_programs():
     net2 = _two_call_params_net()
     s4 = [(1, 4, 8, 6)]
     return {
+        "c14:function_crashable": (_crashable_model(), [(2, 3)], {}),
         "c14:function_two_call_params": (net2, [(2, 4)],
                                          {"input_params": {"deterministic": True, "train_flag": False, "other": True}}),
         "c14:forest_unary_after_add": (forest_unary_after_add, s4 * 2, {}),
@@ -197,7 +236,7 @@ def own_programs():
     }
 
 
-OWN_NAMES = ["c14:function_two_call_params", "c14:forest_unary_after_add", "c14:forest_binary_only", "c14:forest_two_outputs",
+OWN_NAMES = ["c14:function_crashable", "c14:function_two_call_params", "c14:forest_unary_after_add", "c14:forest_binary_only", "c14:forest_two_outputs",
              "c14:add_forest_two_outputs", "c14:chain_three_unary", "c14:two_dropouts_call_param",
              "c14:conv_bn_residual_nchw_io", "c14:conv_bn_residual_symbolic_nchw_io", "c14:gather_const_index_chain"]
 # requests that history job h exports as the very FIRST conversion of its process (then 3x repeated): state that
@@ -412,10 +451,49 @@ def _pass_graph(name):
 
 
 def _failing(kind, i):
-    """conversions that fail: returns the exception class name (None = unexpectedly succeeded)"""
+    """conversions that fail: returns the exception class name (None = unexpectedly succeeded).
+    kind[:k] -- k = which invocation / which equation crashes."""
+    import contextlib
     import jax
     import jax.numpy as jnp
+    from jax import lax
     from jax2onnx import to_onnx
+    kind, _, karg = kind.partition(":")
+    k = int(karg) if karg else 1
+
+    @contextlib.contextmanager
+    def lowering_crash(exc):
+        """the k-th tanh equation that reaches the plugin dispatch raises (whatever the depth: top graph,
+        @onnx_function body, control-flow body)"""
+        import jax2onnx.converter.lowering_dispatch as ld
+        orig = ld.lower_equation_with_plugin
+        seen = {"n": 0}
+
+        def crashing(plugin, **kw):
+            if "tanh" in str(kw.get("primitive_name", "")):
+                seen["n"] += 1
+                if seen["n"] == k:
+                    raise exc("c14 injected lowering crash")
+            return orig(plugin, **kw)
+        ld.lower_equation_with_plugin = crashing
+        try:
+            yield
+        finally:
+            ld.lower_equation_with_plugin = orig
+
+    def body_crash(exc, model, spec, **kw):
+        # jax caches the shape-inference trace of the function: count the invocations of a (succeeding) export
+        # first, then crash at the k-th of them (the last one when there are fewer)
+        for _ in range(2):                       # the second export shows the steady-state count
+            _CRASH.update(calls=0, fail_at=None, exc=RuntimeError)
+            to_onnx(model, spec, **kw)
+        n = max(1, _CRASH["calls"])
+        _CRASH.update(calls=0, fail_at=min(k, n), exc=exc)
+        try:
+            to_onnx(model, spec, **kw)
+        finally:
+            _CRASH.update(calls=0, fail_at=None, exc=RuntimeError)
+
     try:
         if kind == "unsupported":
             from jax.extend.core import Primitive
@@ -425,16 +503,67 @@ def _failing(kind, i):
             to_onnx(lambda x: p.bind(jnp.tanh(x)) + 1.0, [(2 + i % 3,)])
         elif kind == "trace-exception":
             def boom(x):
-                y = jnp.sin(x)
+                y = jnp.sin(x)  # noqa: F841
                 raise RuntimeError("c14 tracing failure")
             to_onnx(boom, [(3,)])
         elif kind == "shape-error":
             to_onnx(lambda a, b: a @ b, [(2, 3), (4, 5)])
         elif kind == "bad-layout":
             to_onnx(lambda a: a * 2.0, [(2, 3)], inputs_as_nchw=[0])
+        elif kind == "fn-body-crash":            # @onnx_function (function) body raises at its k-th invocation
+            body_crash(RuntimeError, _crashable_model(), [(2, 3)])
+        elif kind == "fn-body-interrupt":        # ... with a BaseException
+            body_crash(C14Interrupt, _crashable_model(), [(2, 3)])
+        elif kind == "cls-body-crash":           # @onnx_function (class) __call__ raises at its k-th invocation
+            body_crash(RuntimeError, _two_call_params_net(), [(2, 4)],
+                       input_params={"deterministic": True, "train_flag": False, "other": True})
+        elif kind == "nested-fn-body-crash":     # crash inside an @onnx_function called from a control-flow body
+            f = _crashable_model()
+            body_crash(RuntimeError, lambda x: lax.cond(jnp.sum(x) > 0, lambda a: f(a), lambda a: a - 1.0, x), [(2, 3)])
+        elif kind == "control-flow-body-crash":  # exception while tracing a loop body
+            def lbody(j, c):
+                if k:
+                    raise RuntimeError("c14 loop body failure")
+                return c
+            to_onnx(lambda x: lax.fori_loop(0, 3, lbody, x), [(3,)])
+        elif kind == "lowering-crash-top":
+            with lowering_crash(RuntimeError):
+                to_onnx(lambda x: jnp.tanh(jnp.tanh(x)) * 2.0, [(3,)])
+        elif kind == "lowering-crash-function":  # while the FunctionScope of an @onnx_function is open
+            with lowering_crash(RuntimeError):
+                to_onnx(_crashable_model(), [(2, 3)])
+        elif kind == "lowering-interrupt-function":
+            with lowering_crash(C14Interrupt):
+                to_onnx(_crashable_model(), [(2, 3)])
+        elif kind == "lowering-crash-loop":      # inside the body graph of a Loop
+            with lowering_crash(RuntimeError):
+                to_onnx(lambda x: lax.fori_loop(0, 3, lambda j, c: jnp.tanh(c) + 1.0, x), [(3,)])
+        elif kind == "lowering-crash-cond":
+            with lowering_crash(RuntimeError):
+                to_onnx(lambda x: lax.cond(jnp.sum(x) > 0, lambda a: jnp.tanh(a), lambda a: a - 1.0, x), [(3,)])
+        elif kind == "optimizer-strict-crash":   # the optimizer raises and strict mode propagates it
+            import jax2onnx.converter.conversion_api as api
+            orig, old = api.optimize_graph, os.environ.get("JAX2ONNX_STRICT_OPTIMIZER_FAILURES")
+
+            def bad_opt(model):
+                raise RuntimeError("c14 injected optimizer failure")
+            api.optimize_graph = bad_opt
+            os.environ["JAX2ONNX_STRICT_OPTIMIZER_FAILURES"] = "1"
+            try:
+                to_onnx(_crashable_model(), [(2, 3)])
+            finally:
+                api.optimize_graph = orig
+                if old is None:
+                    os.environ.pop("JAX2ONNX_STRICT_OPTIMIZER_FAILURES", None)
+                else:
+                    os.environ["JAX2ONNX_STRICT_OPTIMIZER_FAILURES"] = old
         else:
             raise ValueError(kind)
-    except Exception as e:  # noqa
+    except BaseException as e:  # noqa
+        if isinstance(e, (KeyboardInterrupt, SystemExit, ValueError)) and not str(e).startswith("c14") and kind not in (
+                "bad-layout",):
+            if isinstance(e, (KeyboardInterrupt, SystemExit)):
+                raise
         return type(e).__name__
     return None
 
@@ -587,6 +716,9 @@ def name_of(n):
     if isinstance(n, ast.Attribute) and isinstance(n.value, ast.Name) and n.value.id == "self": return "self." + n.attr
     return None
 
+# read-only helpers allowed inside any(...)/all(...) over a set
+PURE_CALLS = {"isinstance", "len", "getattr", "_node_output", "_node_outputs", "_node_inputs", "_first_input", "_transpose_perm",
+              "_v_name", "_op_type", "is_graph_output", "is_graph_input"}
 LOOP_CALLS = {}     # (file, function, variable) -> names called in the bodies of the `for` loops over that set
 
 
@@ -663,6 +795,7 @@ def scan_file(path):
             if nm in kinds: return nm, kinds[nm]
             if nm in mod_kinds: return nm, mod_kinds[nm]
             return nm, None
+        anyall_gens = set()
         for node in nodes:
             its = []
             if isinstance(node, (ast.For, ast.AsyncFor)):
@@ -676,7 +809,17 @@ def scan_file(path):
                                 calls.add(x.func.id if isinstance(x.func, ast.Name) else
                                           (x.func.attr if isinstance(x.func, ast.Attribute) else "<expr>"))
                     LOOP_CALLS.setdefault((os.path.basename(path), fname, nm0), set()).update(calls)
-            if isinstance(node, (ast.ListComp, ast.SetComp, ast.DictComp, ast.GeneratorExp)):
+            if isinstance(node, ast.Call) and isinstance(node.func, ast.Name) and node.func.id in ("any", "all") \
+                    and len(node.args) == 1 and isinstance(node.args[0], ast.GeneratorExp) and not node.keywords:
+                gen = node.args[0]
+                called = {(x.func.id if isinstance(x.func, ast.Name) else getattr(x.func, "attr", "<expr>"))
+                          for part in [gen.elt] + [c for g in gen.generators for c in g.ifs] for x in ast.walk(part)
+                          if isinstance(x, ast.Call)}
+                pure = called <= PURE_CALLS
+                for g in gen.generators:
+                    its.append(("anyall" if pure else "anyall-impure", g.iter, node.lineno))
+                anyall_gens.add(id(gen))
+            if isinstance(node, (ast.ListComp, ast.SetComp, ast.DictComp, ast.GeneratorExp)) and id(node) not in anyall_gens:
                 for g in node.generators: its.append(("comp", g.iter, node.lineno))
             if isinstance(node, ast.Call) and isinstance(node.func, ast.Name) and node.func.id in ("list", "tuple", "iter", "enumerate", "zip", "next", "reversed", "sorted"):
                 how0 = node.func.id
@@ -731,8 +874,10 @@ GLOBAL_STATE = {
     ("plugins/plugin_system.py", "ONNX_FUNCTION_PLUGIN_REGISTRY"): ("registry", "qualified name -> FunctionPlugin, written by the decorator"),
     ("plugins/plugin_system.py", "PLUGIN_REGISTRY"): ("registry", "primitive name -> plugin, written at import / decoration"),
     ("plugins/plugin_system.py", "INSTANCE_MAP2"): ("memo", "weak id(instance) -> instance, rewritten at every bind before the lowering reads it"),
-    ("plugins/plugin_system.py", "_IN_FUNCTION_BUILD"): ("contextvar", "reset in finally"),
-    ("plugins/plugin_system.py", "_ONNX_FN_HITS"): ("contextvar", "test bookkeeping, consumed at the end of to_onnx"),
+    ("plugins/plugin_system.py", "_IN_FUNCTION_BUILD"): ("contextvar", "scoped: set before the body trace, restored in finally "
+                                                                 "(Determinism.v contextvar_restored_on_every_exit; tie contextvar-restore)"),
+    ("plugins/plugin_system.py", "_ONNX_FN_HITS"): ("report", "names of the @onnx_function targets hit, accumulated for test bookkeeping; "
+                                                            "conversion_api discards the consumed value"),
     ("plugins/plugin_system.py", "_PATCH_STATE"): ("patch", "reference counts of applied patches (C13)"),
     ("plugins/plugin_system.py", "_RNG_TRACE_REGISTRY"): ("report", "names for CI reporting"),
     ("plugins/plugin_system.py", "_already_imported_plugins"): ("init-flag", "guards the one-time import of the plugin tree, whose effect (the registries) is process-wide too"),
@@ -782,6 +927,50 @@ def scan_globals(path):
             if nm and nm in modnames and nm not in local and nm not in assigned:
                 out.setdefault(nm, set()).add((how, fname))
     return out
+
+
+def unrestored_scoped_writes(path, var):
+    """writes `var.set(...)` (or var[...] = / var.add ...) inside functions of `path` that are NOT paired with a restore on
+    every exit path: a write must sit in a `finally:` block (it is the restore) or be directly followed by a `try`
+    whose `finally:` writes/resets the same variable.  Returns [(function, line)]."""
+    tree = ast.parse(open(path).read())
+
+    def touches(node):
+        for x in ast.walk(node):
+            if isinstance(x, ast.Call) and isinstance(x.func, ast.Attribute) and isinstance(x.func.value, ast.Name) \
+                    and x.func.value.id == var and x.func.attr in (MUT | {"reset"}):
+                return True
+            if isinstance(x, (ast.Assign, ast.AugAssign, ast.Delete)):
+                tgs = x.targets if isinstance(x, (ast.Assign, ast.Delete)) else [x.target]
+                if any(isinstance(t, ast.Subscript) and isinstance(t.value, ast.Name) and t.value.id == var for t in tgs):
+                    return True
+        return False
+
+    bad = []
+
+    def walk(block, in_finally, fname):
+        for i, st in enumerate(block):
+            if isinstance(st, (ast.FunctionDef, ast.AsyncFunctionDef)):
+                walk(st.body, False, st.name)
+            elif isinstance(st, ast.ClassDef):
+                walk(st.body, False, fname)
+            elif isinstance(st, ast.Try):
+                walk(st.body, in_finally, fname)
+                for h in st.handlers:
+                    walk(h.body, in_finally, fname)
+                walk(st.orelse, in_finally, fname)
+                walk(st.finalbody, True, fname)
+            elif isinstance(st, (ast.If, ast.For, ast.AsyncFor, ast.While, ast.With, ast.AsyncWith)):
+                if isinstance(st, (ast.With, ast.AsyncWith)) and any(touches(it.context_expr) for it in st.items) and not in_finally:
+                    bad.append((fname, st.lineno))
+                walk(st.body, in_finally, fname)
+                walk(getattr(st, "orelse", []), in_finally, fname)
+            elif fname is not None and touches(st) and not in_finally:
+                nxt = block[i + 1] if i + 1 < len(block) else None
+                if not (isinstance(nxt, ast.Try) and nxt.finalbody and any(touches(f) for f in nxt.finalbody)):
+                    bad.append((fname, st.lineno))
+    walk(tree.body, False, None)
+    return bad
 
 
 def scan_global_state():
@@ -899,7 +1088,15 @@ def counter_scopes():
 # ------------------------------------------------------------------------------------------------
 # orchestration
 # ------------------------------------------------------------------------------------------------
-FAIL_KINDS = ["unsupported", "trace-exception", "shape-error", "bad-layout"]
+FAIL_KINDS = ["unsupported", "trace-exception", "shape-error", "bad-layout",
+              "fn-body-crash:1", "fn-body-crash:2", "fn-body-crash:3", "fn-body-interrupt:1", "fn-body-interrupt:2",
+              "cls-body-crash:1", "cls-body-crash:2", "cls-body-crash:3", "nested-fn-body-crash:1", "nested-fn-body-crash:2",
+              "control-flow-body-crash", "lowering-crash-top:1", "lowering-crash-top:2", "lowering-crash-function:1",
+              "lowering-interrupt-function:1", "lowering-crash-loop:1", "lowering-crash-cond:1", "optimizer-strict-crash"]
+MAY_SUCCEED = set()
+# after EVERY kind of failed conversion these requests are exported again (job history-failures)
+AFTER_FAILURE_REQUESTS = ["c14:function_crashable", "c14:function_two_call_params", "x:nested_onnx_functions",
+                          "x:two_function_instances", "x:cond_in_while", "x:symbolic_matmul"]
 
 
 def request_set(tier):
@@ -950,6 +1147,14 @@ def make_jobs(ctx, reqs):
                 steps.append(["fail", hr.choice(FAIL_KINDS)])
             steps.append(["export", r])
         jobs.append({"id": f"history-{h}", "kind": "history", "hashseed": 0, "steps": steps})
+    # every kind of failed conversion directly BEFORE the requests that share state with it
+    steps = []
+    after = [r for r in AFTER_FAILURE_REQUESTS if r in reqs]
+    for fk in FAIL_KINDS:
+        steps.append(["fail", fk])
+        steps += [["export", r] for r in after]
+    steps += [["export", r] for r in reqs]
+    jobs.append({"id": "history-failures", "kind": "history", "hashseed": 0, "steps": steps})
     for i in range(1 if quick else 3):
         jobs.append({"id": f"import-order-{i}", "kind": "import-order", "hashseed": 0,
                      "import_order": rng.randrange(2 ** 31), "steps": plain})
@@ -1083,8 +1288,9 @@ def run(ctx):
     unmodelled = []
     n_sorted = 0
     for k, n in sorted(counts.items()):
-        if k[3] == "sorted":
-            # sorted(<set>) without key: the canonical list of C14_sorted_canonical, whatever the set's order
+        if k[3] in ("sorted", "anyall"):
+            # sorted(<set>) without key: the canonical list of C14_sorted_canonical, whatever the set's order;
+            # any()/all() of a read-only predicate: C14_any_all_over_set_order_irrelevant
             n_sorted += n
             continue
         if k not in MODELLED_SITES:
@@ -1103,7 +1309,7 @@ def run(ctx):
     ctx.oblige("tie:set-loop-bodies-perform-only-modelled-actions", not extra_calls, "tie",
                "" if not extra_calls else f"calls inside a loop over a set that the model of that loop does not cover: {extra_calls}")
     gone = [k for k in MODELLED_SITES if k not in counts]
-    ctx.oblige(f"tie:ast-set-iteration-sites-all-modelled({len(counts)} sites, {len(found)} loops/calls, {n_sorted} of them sorted(<set>))",
+    ctx.oblige(f"tie:ast-set-iteration-sites-all-modelled({len(counts)} sites, {len(found)} loops/calls, {n_sorted} of them sorted(<set>) / any() / all())",
                not unmodelled, "tie", "" if not unmodelled else f"new: {unmodelled}")
     ctx.oblige("tie:modelled-sites-exist-in-source", not gone, "tie", "" if not gone else f"modelled but not found: {gone}")
     line2site = {(f[:-3] + ":" + fn.split(".")[-1], ln): (f, fn, var, how) for (f, fn, var, how, ln, kind) in found}
@@ -1118,6 +1324,17 @@ def run(ctx):
         ctx.oblige(f"unclassified class-level state: cls.{k}", False, "tie", f"assigned in {sorted(set(cstate[k]))[:4]}")
     ctx.oblige(f"tie:process-global-state-all-classified({len(gstate)} module objects, {len(cstate)} class attributes)",
                not new_g and not new_c, "tie", "" if not (new_g or new_c) else f"new: {new_g} {new_c}")
+    # scoped state: every write is paired with a restore in a `finally:` (normal AND exceptional exit)
+    unrestored = {}
+    n_scoped = 0
+    for (rel, nm), (cls_, _why) in sorted(GLOBAL_STATE.items()):
+        if cls_ == "contextvar" and (rel, nm) in gstate:
+            n_scoped += 1
+            b = unrestored_scoped_writes(os.path.join(REPO, "jax2onnx", rel), nm)
+            if b:
+                unrestored[f"{rel}:{nm}"] = b
+    ctx.oblige(f"tie:contextvar-restore-on-every-exit-path({n_scoped} scoped variables)", not unrestored, "tie",
+               "" if not unrestored else f"writes without a restore in a finally block (function, line): {unrestored}")
     ctx.coverage["process_global_state"] = {f"{k[0]}:{k[1]}": (GLOBAL_STATE.get(k, ("UNCLASSIFIED", ""))[0]) for k in sorted(gstate)}
     ctx.coverage["process_global_state_classified_but_absent"] = sorted(f"{k[0]}:{k[1]}" for k in GLOBAL_STATE if k not in gstate)
 
@@ -1267,7 +1484,7 @@ def run(ctx):
     for jid, (job, res, dt) in done.items():
         for f in res.get("failures", []):
             fails.setdefault(f["kind"], set()).add(str(f["raised"]))
-    not_failing = sorted(k for k, v in fails.items() if "None" in v and k != "filler")
+    not_failing = sorted(k for k, v in fails.items() if "None" in v and k != "filler" and k not in MAY_SUCCEED)
     ctx.oblige("tie:history-failing-conversions-do-fail", not not_failing, "tie",
                "" if not not_failing else f"conversions meant to fail succeeded: {not_failing}")
 
